@@ -1,1 +1,92 @@
-pub fn x(){}
+//! vprop — property-based checks for the 20 ast-grep properties in /verif/properties.jsonl.
+pub mod engine;
+pub mod gen;
+pub mod langs;
+pub mod tsutil;
+
+pub mod c10;
+pub mod c19;
+
+use engine::*;
+use serde::de::DeserializeOwned;
+use std::path::Path;
+
+/// `--replay FILE`: run exactly that case through the oracle, strictly.
+pub fn replay_main<C: DeserializeOwned>(
+  cfg: &RunCfg,
+  path: &Path,
+  check: impl Fn(&C, &mut Stats) -> CheckResult,
+) -> i32 {
+  let rf = read_replay(path);
+  match replay_case::<C>(&rf, check) {
+    Ok(()) => {
+      println!("replay {}: property {} held on this case", path.display(), cfg.prop);
+      0
+    }
+    Err(f) => {
+      println!("VIOLATION property={} replay={}", cfg.prop, path.display());
+      println!("  signature: {}", f.signature);
+      println!("  {}", f.message.replace('\n', "\n  "));
+      1
+    }
+  }
+}
+
+/// Replay the witnesses of known / fixed findings at the start of every run.
+pub fn replay_known<C: DeserializeOwned>(
+  report: &mut Report,
+  known: &Known,
+  check: impl Fn(&C, &mut Stats) -> CheckResult,
+) {
+  for e in &known.entries {
+    let Some(w) = &e.witness else { continue };
+    let path = Path::new(VERIF).join(w);
+    if !path.exists() {
+      report
+        .inconclusive
+        .push(format!("witness {} of known finding is missing", path.display()));
+      continue;
+    }
+    let rf = read_replay(&path);
+    let r = replay_case::<C>(&rf, &check);
+    match (e.status.as_str(), r) {
+      ("known", Err(f)) if f.signature == e.signature => {
+        report.known_finding(format!("signature={} witness={} — {}", e.signature, w, e.what));
+      }
+      ("known", Err(f)) => {
+        // the witness fails differently: that is a different violation
+        report.violations.push((
+          "known-witness".into(),
+          Violation {
+            signature: f.signature,
+            message: format!("witness {w} of a known finding now fails differently: {}", f.message),
+            case: rf.case.clone(),
+          },
+        ));
+      }
+      ("known", Ok(())) => {
+        report.stats.note(format!(
+          "known finding {} no longer reproduces on its witness {w}",
+          e.signature
+        ));
+      }
+      ("fixed", Err(f)) if known.tolerated(&f.signature) => {
+        // the witness runs into a different, listed finding: not a regression of this one
+        report.stats.label("fixed_witness_hits_other_known");
+      }
+      ("fixed", Err(f)) => {
+        report.violations.push((
+          "fixed-regression".into(),
+          Violation {
+            signature: f.signature,
+            message: format!("regression of fixed finding ({}): {}", e.what, f.message),
+            case: rf.case.clone(),
+          },
+        ));
+      }
+      _ => {
+        report.stats.label("fixed_witness_ok");
+      }
+    }
+  }
+}
